@@ -107,6 +107,21 @@ def nested_family(tier):
     return ['SELECT %s FROM (%s) AS s%s' % (tg, inner, tail) for inner in NEST_INNER for tg, tail in NEST_OUTER]
 
 
+# three-table chains: every pair of join kinds x which earlier table the third joins x a NULL test / comparison on each table
+# (an outer join later in the chain NULL-extends EVERY table before it, not only its neighbour)
+CHAIN_ATOMS = [None, 'x.a IS NULL', 'y.c IS NULL', 'z.d IS NULL', 'x.a IS NOT NULL', 'x.a = 1', 'y.c = 1', 'z.d = 1', 'x.a IS NULL AND z.d = 1']
+
+
+def chain_family(tier):
+    out = []
+    for j1, j2, key, atom in itertools.product(JOINS[:4], JOINS[:4], ('y', 'x'), CHAIN_ATOMS):
+        if tier == 'quick' and not (atom and 'IS NULL' in atom) and zlib.crc32(repr((j1, j2, key, atom)).encode()) % 3:
+            continue
+        sql = 'SELECT x.a, y.c, z.d FROM int1.t1 AS x %s int2.t2 AS y ON x.id = y.id %s int1.t3 AS z ON z.id = %s.id' % (j1, j2, key)
+        out.append(sql + (' WHERE ' + atom if atom else ''))
+    return out
+
+
 def family(tier):
     out = []
     if tier == 'quick':
@@ -124,7 +139,7 @@ def family(tier):
         sqls.append(sql)
     # deterministic de-dup preserving order
     seen, res = set(), []
-    for s_ in sqls + EXTRA + atom_family(tier) + nested_family(tier) + on_family(tier) + setop_family(tier):
+    for s_ in sqls + EXTRA + atom_family(tier) + nested_family(tier) + on_family(tier) + setop_family(tier) + chain_family(tier):
         if s_ not in seen:
             seen.add(s_)
             res.append(s_)
